@@ -286,9 +286,10 @@ unsigned int Wave_Bank::add_sample(const Tag& tag)
 //! Add sample to the waverom in raw format.
 unsigned int Wave_Bank::add_sample(Wave_Bank::Sample header, const std::vector<uint8_t>& sample)
 {
-	if(header.size > sample.size())
+	// The playback window [start, start + size) must lie inside the sample data
+	if((uint64_t)header.start + header.size > sample.size())
 	{
-		error_message = stringf("Sample length (%u) is greater than the sample data (%u bytes)", header.size, (unsigned)sample.size());
+		error_message = stringf("Sample length (%u) from start offset %u is greater than the sample data (%u bytes)", header.size, header.start, (unsigned)sample.size());
 		throw InputError(nullptr, error_message.c_str());
 	}
 
@@ -346,8 +347,10 @@ unsigned int Wave_Bank::add_sample(Wave_Bank::Sample header, const std::vector<u
 		}
 
 		printf("Append sample %d to ROM at %08x (size %08x)\n", samples.size(), start_pos, header.size);
-		std::copy_n(sample.begin(), header.size, rom_data.begin() + start_pos);
+		// Only the playback window is stored, so it begins at the new position
+		std::copy_n(sample.begin() + header.start, header.size, rom_data.begin() + start_pos);
 		header.position = start_pos;
+		header.start = 0;
 		samples.push_back(header);
 		return samples.size() - 1;
 	}
